@@ -170,3 +170,84 @@ def fresh_ids(rng: Rng, n: int = 5) -> List[str]:
         else:
             out.append(str(_uuid.UUID(int=(rng.next() << 64) | rng.next(), version=4)))
     return out
+
+
+# ---------------------------------------------------------------------------------------------- seeding path (set_random_seed / reset)
+SEED_ARGS = [None, -1, -2, -7, 0, 1, 2, 7, 65535, 2 ** 31, 2 ** 32 - 1]
+
+
+def _gen_states():
+    import random
+    import numpy as np
+    return repr(random.getstate()), np.random.get_state()[1].tobytes()
+
+
+def _classify_seeding(before, returned, x) -> str:
+    """What happened to the global generators between `before` and now, in the model's vocabulary."""
+    import random
+    import numpy as np
+    after = _gen_states()
+    if after == before:
+        return "keep"
+    if returned is None:
+        return "changed-but-returned-None"
+    n = int(returned)
+    py = random.Random()
+    py.seed(n)
+    ok_py = repr(py.getstate()) == after[0]
+    ok_np = np.random.RandomState(n).get_state()[1].tobytes() == after[1]
+    if not (ok_py and ok_np):
+        return f"state-is-not-that-of-seed-{n}:py={ok_py},np={ok_np}"
+    return f"seed {n}" if (x is not None and x == n) else "entropy"
+
+
+def seedact_set_impl(x, gen: bool) -> str:
+    """`set_random_seed(x, gen)` on generators put in a known state first."""
+    import random
+    import numpy as np
+    from primaite.session.environment import set_random_seed
+    random.seed(987654)
+    np.random.seed(987654)
+    before = _gen_states()
+    try:
+        r = set_random_seed(x, gen)
+    except ValueError:
+        return "raise" if _gen_states() == before else "raise-after-change"
+    except Exception as e:  # anything else is reported as it is
+        return "raised:" + type(e).__name__
+    return _classify_seeding(before, r, x)
+
+
+def seedact_reset_impl(env, x, gen: bool) -> str:
+    """`env.reset(seed=x)` with `generate_seed_value = gen`: does it call set_random_seed, and what does the call do? The
+    generators are put in a known state first and read again right after the seeding call (before from_config draws)."""
+    import random
+    import numpy as np
+    import primaite.session.environment as envmod
+    real = envmod.set_random_seed
+    seen = []
+
+    def recorder(seed, generate_seed_value):
+        before = _gen_states()
+        try:
+            r = real(seed, generate_seed_value)
+        except ValueError:
+            seen.append("raise" if _gen_states() == before else "raise-after-change")
+            raise
+        seen.append(_classify_seeding(before, r, seed))
+        return r
+    env.generate_seed_value = gen
+    random.seed(424242)
+    np.random.seed(424242)
+    envmod.set_random_seed = recorder
+    try:
+        env.reset(seed=x)
+    except ValueError:
+        return seen[-1] if seen else "raised-without-seeding-call"
+    except Exception as e:
+        return "raised:" + type(e).__name__
+    finally:
+        envmod.set_random_seed = real
+    if not seen:
+        return "keep"
+    return seen[-1] if len(seen) == 1 else "seeding-called-%d-times" % len(seen)
